@@ -239,6 +239,49 @@ def simlogs_part(case, res):
             check_encoder(res, kind, o, seq, margin)
             o.state_record_list = saved
             res.count("C19.real_log_checks")
+    # aggregate chart data (workflow / product / organization level) = union of the rows of their members
+    init = datetime.datetime(2021, 5, 6, 7, 0, 0)
+    unit = rng.choice([datetime.timedelta(hours=1), datetime.timedelta(days=1), datetime.timedelta(minutes=30)])
+    mg = rng.choice(MARGINS)
+    vr, va = rng.random() < 0.5, rng.random() < 0.5
+
+    def rows_of(name, seq, targets, kinds):
+        out = []
+        for lab, st in kinds:
+            for s_, l_ in rle(seq, st, mg):
+                out.append((name, lab, (init + s_ * unit).strftime(FMT), (init + (s_ + l_) * unit).strftime(FMT)))
+        return out
+
+    def norm_rows(rows):
+        return sorted((r["Task"], r["State"], r["Start"], r["Finish"]) for r in rows)
+
+    exp = []
+    for t in p.workflow.task_list:
+        exp += rows_of(t.name, list(t.state_record_list), None, [("WORKING", TS.WORKING)] + ([("READY", TS.READY)] if vr else []))
+    got = p.workflow.create_data_for_gantt_plotly(init, unit, finish_margin=mg, view_ready=vr)
+    res.count("C19.aggregate_row_checks")
+    if norm_rows(got) != sorted(exp):
+        res.violate("C19", "C19/plotly-rows:workflow-level", "workflow chart rows (margin %r, view_ready=%s) differ from the maximal runs of the task logs: %r vs %r" % (mg, vr, norm_rows(got)[:4], sorted(exp)[:4]))
+    exp = []
+    for c in p.product.component_list:
+        exp += rows_of(c.name, list(c.state_record_list), None, [("WORKING", CS.WORKING)] + ([("READY", CS.READY)] if vr else []))
+    got = p.product.create_data_for_gantt_plotly(init, unit, finish_margin=mg, view_ready=vr)
+    res.count("C19.aggregate_row_checks")
+    if norm_rows(got) != sorted(exp):
+        res.violate("C19", "C19/plotly-rows:product-level", "product chart rows (margin %r, view_ready=%s) differ from the maximal runs of the component logs" % (mg, vr))
+    exp = []
+    for tm in p.organization.team_list:
+        for w in tm.worker_list:
+            exp += rows_of(tm.name + ": " + w.name, list(w.state_record_list), None,
+                           [("WORKING", WS.WORKING)] + ([("READY", WS.FREE)] if vr else []) + ([("ABSENCE", WS.ABSENCE)] if va else []))
+    for wp in p.organization.workplace_list:
+        for f in wp.facility_list:
+            exp += rows_of(wp.name + ": " + f.name, list(f.state_record_list), None,
+                           [("WORKING", FS_.WORKING)] + ([("READY", FS_.FREE)] if vr else []) + ([("ABSENCE", FS_.ABSENCE)] if va else []))
+    got = p.organization.create_data_for_gantt_plotly(init, unit, finish_margin=mg, view_ready=vr, view_absence=va)
+    res.count("C19.aggregate_row_checks")
+    if norm_rows(got) != sorted(exp):
+        res.violate("C19", "C19/plotly-rows:organization-level", "organization chart rows (margin %r, view_ready=%s, view_absence=%s) differ from the maximal runs of the worker/facility logs" % (mg, vr, va))
     # dates after absence edits: the last logged step must fall on the requested date
     if p.time >= 2 and rng.random() < 0.6:
         T0 = p.time
